@@ -1,6 +1,9 @@
 """A2 helpers: branch decisions that must hold to reach a block (control dependence summarised as
 dominating conditions), and the conditional definitions of a local."""
+import re
 from collections import deque
+
+from .facts import strip_generics
 
 
 def _reach_without(fn, start, avoid):
@@ -126,7 +129,6 @@ def conditional_defs(fn, local):
 
 def has_cond(conds, regex, value):
     """is there a dominating condition whose expression matches regex with the given value?"""
-    import re
     rx = re.compile(regex)
     for e, v in conds.items():
         if isinstance(e, str) and rx.search(e) and v == value:
@@ -199,3 +201,56 @@ def guarded_by_disjunction(fn, bb, rx_a, val_a, rx_b, val_b):
         if ok:
             return True
     return False
+
+
+SELECTIVE_ADAPTERS = re.compile(
+    r"^std::iter::Iterator::(filter|filter_map|take|take_while|skip|skip_while|step_by|map_while|find|find_map|"
+    r"nth|last|position|rposition|min|max|min_by|max_by|min_by_key|max_by_key|next_back|nth_back)$|"
+    r"^core::slice::(first|last|split_first|split_last)$|^std::iter::DoubleEndedIterator::(nth_back|rfind)$|"
+    r"^(itertools|blocker::_::itertools)::Itertools::(dedup|unique|unique_by|dedup_by|take_while_ref|while_some)$")
+
+
+def selective_adapters(*fns):
+    """call sites of iterator adapters that can drop, truncate or pick elements (the who-may-call rule for
+    loops that must visit EVERY element): [(callee, loc)]"""
+    out = []
+    for g in fns:
+        for b, t in g.calls():
+            c = strip_generics(t["callee"])
+            if SELECTIVE_ADAPTERS.search(c):
+                out.append((c, g.loc(b)))
+    return out
+
+
+TRUNCATING_ADAPTERS = re.compile(
+    r"^std::iter::Iterator::(take|take_while|skip|skip_while|step_by|map_while|nth|last|next_back|nth_back|"
+    r"find|find_map|position|rposition)$|^core::slice::(first|last|split_first|split_last)$|"
+    r"^std::iter::DoubleEndedIterator::(nth_back|rfind)$|"
+    r"^(itertools|blocker::_::itertools)::Itertools::(take_while_ref|while_some|dedup|dedup_by|unique|unique_by)$")
+
+
+def rule_visits_all(run, rid, F, cfg, roots, why, allowed=(), minimum=1):
+    """Who-may-call rule for code that has to treat EVERY element of a list (options of a rule, entries of a
+    `domain=` list, lines of a filter list, matching rules, selectors of a bucket): inside the named functions,
+    their closures and nested helper functions no iterator adapter that truncates the sequence or picks one
+    element is called. Predicate adapters (`filter`, `filter_map`) are not restricted here: replacing an `if` in
+    a loop body by `.filter(..)` preserves behaviour, and what their predicates test is the subject of the
+    value-level rules. `allowed` lists reviewed (function regex, adapter) exceptions."""
+    n = 0
+    for r in roots:
+        fs = [f for nme, f in F.fns.items() if nme == r or nme.startswith(r + "::")]
+        if not fs:
+            run.ob(rid, f"visits-all:{r.split('::')[-1]}", False, f"function `{r}` not found", status="UNDISCHARGED", config=cfg)
+            continue
+        run.touched(*fs)
+        n += len(fs)
+        bad = []
+        for g in fs:
+            for b, t in g.calls():
+                c = strip_generics(t["callee"])
+                if TRUNCATING_ADAPTERS.search(c) and not any(re.search(fr, g.name) and c.endswith("::" + ad) for fr, ad in allowed):
+                    bad.append((c.split("::")[-1], g.loc(b)))
+        run.ob(rid, f"visits-all:{r.split('::', 1)[-1]}", not bad,
+               f"{r} (with its closures and local helpers, {len(fs)} bodies) calls no truncating / picking iterator "
+               f"adapter: {bad[:3]}. {why}", site=bad[0][1] if bad else fs[0].loc(0), config=cfg)
+    run.floor(rid, f"bodies searched for truncating adapters [{cfg}]", n, minimum)
